@@ -1,12 +1,342 @@
 //! Extension of the `crdt` engine: commands `crdt.st.*` (concrete op store, M4) on the replicas of `CrdtSession`.
-use super::crdt::CrdtSession;
-use crate::{rng::Rng, Out, Session};
-use automerge::TextEncoding;
+//!
+//! `crdt.st.dump r`  — the rows of the real op store (`Automerge::verif_dump_ops`, hook behind
+//!                     `--cfg automerge_verif`): id/obj/key/insert/successors(+inc)/visible,top/width,
+//!                     compared with the Lean model store (`insertRemote` folded over the applied ops).
+//! `crdt.st.state r` — the document as the public API shows it, compared with the Lean reading of the
+//!                     MODEL STORE rows (`storeShowDoc`).
+//! Direct oracles (implementation alone): the store of `load(save(doc))` (index columns rebuilt from
+//! scratch by `IndexBuilder`) equals the incrementally maintained one; two replicas holding the same
+//! changes hold the same rows in the same order.
+use super::crdt::{def_line, local_tx, parse_exid, show_doc, CrdtSession};
+use super::unhx;
+use crate::{exec_line, rng::Rng, Out, Session};
+use automerge::{transaction::Transactable, AutoCommit, ChangeHash, ObjType, ReadDoc, TextEncoding};
 use std::collections::BTreeMap;
 
-pub fn exec(_s: &mut CrdtSession, _toks: &[&str], _enc: TextEncoding) -> Vec<String> {
-    vec!["unknown-cmd".into()]
+fn dump_doc(d: &AutoCommit) -> String {
+    // `document()` closes the open (empty) transaction: work on a copy
+    let mut c = d.clone();
+    let rows = c.document().verif_dump_ops();
+    if rows.is_empty() { return "-".into(); }
+    rows.iter().map(|(id, obj, key, insert, succ, vis, top, width)| {
+        let key = match key.strip_prefix('m') { Some(k) => format!("m{}", super::hx(k.as_bytes())), None => key.clone() };
+        let succ = if succ.is_empty() { "-".to_string() } else {
+            succ.iter().map(|(i, inc)| match inc { Some(n) => format!("{}+{}", i, n), None => i.clone() }).collect::<Vec<_>>().join(",")
+        };
+        format!("{}/{}/{}/{}/{}/{}{}/{}", id, obj, key, if *insert { 1 } else { 0 }, succ,
+            if *vis { 1 } else { 0 }, if *top { 1 } else { 0 }, match width { Some(w) => w.to_string(), None => "-".into() })
+    }).collect::<Vec<_>>().join(";")
 }
 
-#[allow(dead_code)]
-pub fn generate(_r: &mut Rng, _opts: &BTreeMap<String, String>, _sess: &mut Session, _out: &mut Out) {}
+pub fn exec(s: &mut CrdtSession, toks: &[&str], enc: TextEncoding) -> Vec<String> {
+    match toks[0] {
+        "crdt.st.dump" => {
+            let d = s.replicas.get(toks[1]).expect("replica");
+            if d.pending_ops() > 0 { return vec!["pending".into()]; }
+            let text = dump_doc(d);
+            let mut res = vec![format!("{} idx=ok", text)];
+            // direct oracle: the index columns rebuilt from scratch by load() equal the maintained ones
+            let bytes = d.clone().save_with_options(automerge::SaveOptions { deflate: false, retain_orphans: false });
+            match AutoCommit::load_with_options(&bytes, automerge::LoadOptions::new().text_encoding(enc)) {
+                Ok(l) => {
+                    let lt = dump_doc(&l);
+                    if lt != text {
+                        let (a, b): (Vec<&str>, Vec<&str>) = (text.split(';').collect(), lt.split(';').collect());
+                        let at = a.iter().zip(b.iter()).position(|(x, y)| x != y).unwrap_or(a.len().min(b.len()));
+                        res.push(format!("! C02 sig=store-rebuild-differs the op store of load(save(doc)) differs from the incrementally maintained one at row {}: {} vs {}",
+                            at, a.get(at).unwrap_or(&"<none>"), b.get(at).unwrap_or(&"<none>")));
+                    }
+                }
+                Err(e) => res.push(format!("! C11 sig=load-failed load(save(doc)) failed: {}", e)),
+            }
+            res
+        }
+        "crdt.st.state" => {
+            let d = s.replicas.get(toks[1]).expect("replica");
+            if d.pending_ops() > 0 { return vec!["pending".into()]; }
+            vec![show_doc(d, None, enc)]
+        }
+        _ => vec!["unknown-cmd".into()],
+    }
+}
+
+// ------------------------------------------------------------------ generator
+
+/// dump (and sometimes read) the store of the named replicas; direct oracle: equal change sets ⇒ equal rows
+fn dump_all(r: &mut Rng, sess: &mut Session, out: &mut Out, names: &[String]) {
+    let mut seen: BTreeMap<String, (String, String)> = BTreeMap::new();
+    for n in names {
+        if !sess.crdt.replicas.contains_key(n) { continue; }
+        let res = exec_line(sess, &format!("crdt.st.dump {}", n), out);
+        out.count("dumps");
+        out.add("rows_dumped", res[0].split(';').count() as u64);
+        if r.chance(1, 3) { exec_line(sess, &format!("crdt.st.state {}", n), out); }
+        let d = sess.crdt.replicas.get_mut(n).unwrap();
+        let mut hs: Vec<String> = d.get_changes(&[]).iter().map(|c| hex::encode(c.hash().0)).collect();
+        hs.sort();
+        let key = hs.join(",");
+        if let Some((other, st)) = seen.get(&key) {
+            if *st != res[0] {
+                out.count("oracle_failures");
+                out.line(&format!("! C01 sig=store-diverged replicas {} and {} hold the same {} changes but different op store rows", other, n, hs.len()));
+            } else { out.count("c01_equal_store_pairs"); }
+        } else { seen.insert(key, (n.clone(), res[0].clone())); }
+    }
+}
+
+fn commit(sess: &mut Session, out: &mut Out, who: &str, all: &mut Vec<String>) {
+    let res = exec_line(sess, &format!("crdt.commit {}", who), out);
+    if res[0] == "ok" {
+        let hh = ChangeHash::try_from(unhx(res[1].strip_prefix("#hash ").unwrap()).as_slice()).unwrap();
+        let c = sess.crdt.replicas.get_mut(who).unwrap().get_change_by_hash(&hh).unwrap();
+        exec_line(sess, &def_line(&c), out);
+        exec_line(sess, &format!("crdt.local {} {}", who, hex::encode(hh.0)), out);
+        all.push(hex::encode(hh.0));
+    }
+}
+
+fn shuffle(r: &mut Rng, v: &mut Vec<String>) {
+    for i in (1..v.len()).rev() { let j = r.below(i as u64 + 1) as usize; v.swap(i, j); }
+}
+
+/// three replicas edit ONE list or text concurrently (inserts at the same positions, updates, deletes,
+/// counters with increments), changes travel in shuffled batches: the RGA skip and the element blocks
+fn generate_seq(r: &mut Rng, sess: &mut Session, out: &mut Out) {
+    out.count("seq_cases");
+    let enc = ["cp", "utf8", "utf16"][r.below(3) as usize];
+    let mut actors: Vec<Vec<u8>> = (0..3).map(|i| vec![0x20 + 0x30 * i as u8 + r.below(8) as u8]).collect();
+    if r.chance(1, 2) { actors.reverse(); }
+    if r.chance(1, 3) { actors.swap(0, 1); }
+    exec_line(sess, &format!("crdt.new r0 {} {}", enc, hex::encode(&actors[0])), out);
+    let is_text = r.chance(1, 2);
+    let res = exec_line(sess, &format!("crdt.putobj r0 _ m6c {}", if is_text { "T" } else { "L" }), out);
+    let seq = res[0].strip_prefix("ok ").unwrap_or("_").to_string();
+    let mut all: Vec<String> = vec![];
+    let vals = ["c3", "i4", "s79", "n", "s61", "c0", "se29892", "sf09f9982"];
+    let txts = ["a", "bc", "é", "🙂", "xyz"];
+    for i in 0..r.range(0, 3) {
+        if is_text { exec_line(sess, &format!("crdt.splice r0 {} {} 0 {}", seq, i, hex::encode(txts[r.below(5) as usize])), out); }
+        else { exec_line(sess, &format!("crdt.ins r0 {} {} {}", seq, i, vals[r.below(8) as usize]), out); }
+    }
+    commit(sess, out, "r0", &mut all);
+    exec_line(sess, &format!("crdt.fork r0 r1 {}", hex::encode(&actors[1])), out);
+    exec_line(sess, &format!("crdt.fork r0 r2 {}", hex::encode(&actors[2])), out);
+    let names = ["r0".to_string(), "r1".to_string(), "r2".to_string()];
+    for _round in 0..r.range(2, 6) {
+        for who in names.iter() {
+            if r.chance(1, 4) { continue; }
+            for _ in 0..r.range(1, 3) {
+                let len = sess.crdt.replicas.get(who).unwrap().length(parse_exid(&seq)) as u64;
+                let line = if is_text {
+                    let pos = r.below(len + 1);
+                    let del = if len > pos && r.chance(1, 3) { r.range(1, (len - pos).min(2)) } else { 0 };
+                    format!("crdt.splice {} {} {} {} {}", who, seq, pos, del, hex::encode(txts[r.below(5) as usize]))
+                } else {
+                    match r.below(10) {
+                        0 | 1 if len > 0 => format!("crdt.put {} {} i{} {}", who, seq, r.below(len), vals[r.below(8) as usize]),
+                        2 if len > 0 => format!("crdt.inc {} {} i{} {}", who, seq, r.below(len), r.range(1, 3)),
+                        3 if len > 0 => format!("crdt.del {} {} i{}", who, seq, r.below(len)),
+                        // the front and one fixed position are contested by everybody
+                        4 | 5 => format!("crdt.ins {} {} {} {}", who, seq, 0, vals[r.below(8) as usize]),
+                        6 => format!("crdt.ins {} {} {} {}", who, seq, len.min(1), vals[r.below(8) as usize]),
+                        _ => format!("crdt.ins {} {} {} {}", who, seq, r.below(len + 1), vals[r.below(8) as usize]),
+                    }
+                };
+                exec_line(sess, &line, out);
+            }
+            commit(sess, out, who, &mut all);
+            exec_line(sess, &format!("crdt.st.dump {}", who), out);
+            out.count("dumps");
+        }
+        for who in names.iter() {
+            if all.is_empty() || r.chance(1, 3) { continue; }
+            let mut pick: Vec<String> = all.iter().filter(|_| r.chance(2, 3)).cloned().collect();
+            shuffle(r, &mut pick);
+            if pick.is_empty() { continue; }
+            if r.chance(1, 3) {
+                // one by one: every change is its own batch
+                for h in pick { exec_line(sess, &format!("crdt.apply {} {}", who, h), out); }
+            } else {
+                let via = if r.chance(1, 4) { "crdt.loadinc" } else { "crdt.apply" };
+                exec_line(sess, &format!("{} {} {}", via, who, pick.join(",")), out);
+            }
+            exec_line(sess, &format!("crdt.st.dump {}", who), out);
+            out.count("dumps");
+            if r.chance(1, 2) { exec_line(sess, &format!("crdt.st.state {}", who), out); }
+        }
+    }
+    for n in names.iter() { exec_line(sess, &format!("crdt.apply {} {}", n, all.join(",")), out); }
+    dump_all(r, sess, out, &names.to_vec());
+    exec_line(sess, "crdt.saveload r1 l 0", out);
+    dump_all(r, sess, out, &["l".to_string()]);
+}
+
+/// `crdt::generate_focus` with a dump after every commit and delivery
+fn generate_focus(r: &mut Rng, sess: &mut Session, out: &mut Out) {
+    out.count("focus_cases");
+    let mut actors: Vec<Vec<u8>> = (0..3).map(|i| vec![0x20 + 0x30 * i as u8 + r.below(8) as u8]).collect();
+    if r.chance(1, 2) { actors.reverse(); }
+    exec_line(sess, &format!("crdt.new r0 cp {}", hex::encode(&actors[0])), out);
+    let res = exec_line(sess, "crdt.putobj r0 _ m6c L", out);
+    let list = res[0].strip_prefix("ok ").unwrap_or("_").to_string();
+    exec_line(sess, &format!("crdt.ins r0 {} 0 c5", list), out);
+    exec_line(sess, &format!("crdt.ins r0 {} 1 s78", list), out);
+    exec_line(sess, "crdt.put r0 _ m61 c1", out);
+    let mut all: Vec<String> = vec![];
+    commit(sess, out, "r0", &mut all);
+    exec_line(sess, &format!("crdt.fork r0 r1 {}", hex::encode(&actors[1])), out);
+    exec_line(sess, &format!("crdt.fork r0 r2 {}", hex::encode(&actors[2])), out);
+    let names = ["r0".to_string(), "r1".to_string(), "r2".to_string()];
+    let vals = ["c3", "c7", "i4", "s79", "n", "b1"];
+    for _round in 0..r.range(3, 7) {
+        for who in names.iter() {
+            if r.chance(1, 4) { continue; }
+            for _ in 0..r.range(1, 2) {
+                let len = sess.crdt.replicas.get(who).unwrap().length(parse_exid(&list)) as u64;
+                let line = match r.below(8) {
+                    0 | 1 => format!("crdt.put {} _ m61 {}", who, vals[r.below(6) as usize]),
+                    2 | 3 if len > 0 => format!("crdt.put {} {} i{} {}", who, list, r.below(len.min(2)), vals[r.below(6) as usize]),
+                    4 => format!("crdt.inc {} _ m61 {}", who, r.range(1, 3)),
+                    5 if len > 0 => format!("crdt.inc {} {} i{} {}", who, list, r.below(len.min(2)), r.range(1, 3)),
+                    6 => if r.chance(1, 2) || len == 0 { format!("crdt.del {} _ m61", who) } else { format!("crdt.del {} {} i{}", who, list, r.below(len)) },
+                    _ => format!("crdt.ins {} {} {} {}", who, list, r.below(len + 1), vals[r.below(6) as usize]),
+                };
+                exec_line(sess, &line, out);
+            }
+            commit(sess, out, who, &mut all);
+            exec_line(sess, &format!("crdt.st.dump {}", who), out);
+            out.count("dumps");
+        }
+        for who in names.iter() {
+            if all.is_empty() || r.chance(1, 3) { continue; }
+            let mut pick: Vec<String> = all.iter().filter(|_| r.chance(2, 3)).cloned().collect();
+            shuffle(r, &mut pick);
+            if pick.is_empty() { continue; }
+            let via = if r.chance(1, 4) { "crdt.loadinc" } else { "crdt.apply" };
+            exec_line(sess, &format!("{} {} {}", via, who, pick.join(",")), out);
+            exec_line(sess, &format!("crdt.st.dump {}", who), out);
+            out.count("dumps");
+            if r.chance(1, 2) { exec_line(sess, &format!("crdt.st.state {}", who), out); }
+        }
+    }
+    for n in names.iter() { exec_line(sess, &format!("crdt.apply {} {}", n, all.join(",")), out); }
+    dump_all(r, sess, out, &names.to_vec());
+    exec_line(sess, "crdt.saveload r1 l 0", out);
+    dump_all(r, sess, out, &["l".to_string()]);
+}
+
+/// `crdt::generate` (random replicas, forks, partial / shuffled / duplicated deliveries, late joiner,
+/// random local transactions over maps, lists, texts, nested objects) with a dump after every step
+/// the two histories behind the fixed defects 5d9ce8aa7 / b970c7728 (regression corpus C02)
+fn generate_scenario(which: &str, sess: &mut Session, out: &mut Out) {
+    let mut all: Vec<String> = vec![];
+    exec_line(sess, "crdt.new r0 cp 01", out);
+    let res = exec_line(sess, "crdt.putobj r0 _ m74 T", out);
+    let t = res[0].strip_prefix("ok ").unwrap_or("_").to_string();
+    exec_line(sess, &format!("crdt.splice r0 {} 0 0 6162", t), out);
+    if which == "f2" {
+        // a counter with an increment inside a text element: get / get_all panicked
+        exec_line(sess, &format!("crdt.put r0 {} i0 c5", t), out);
+        exec_line(sess, &format!("crdt.inc r0 {} i0 2", t), out);
+        commit(sess, out, "r0", &mut all);
+    } else {
+        // a local increment on a text element holding [counter, string]: the exposed counter had no width
+        commit(sess, out, "r0", &mut all);
+        exec_line(sess, "crdt.fork r0 r1 02", out);
+        exec_line(sess, &format!("crdt.put r0 {} i0 c5", t), out);
+        commit(sess, out, "r0", &mut all);
+        exec_line(sess, &format!("crdt.put r1 {} i0 s78", t), out);
+        commit(sess, out, "r1", &mut all);
+        exec_line(sess, &format!("crdt.apply r0 {}", all.join(",")), out);
+        exec_line(sess, "crdt.st.dump r0", out);
+        exec_line(sess, &format!("crdt.inc r0 {} i0 2", t), out);
+        commit(sess, out, "r0", &mut all);
+        exec_line(sess, &format!("crdt.apply r1 {}", all.join(",")), out);
+    }
+    for n in ["r0", "r1"] {
+        if !sess.crdt.replicas.contains_key(n) { continue; }
+        exec_line(sess, &format!("crdt.st.dump {}", n), out);
+        exec_line(sess, &format!("crdt.st.state {}", n), out);
+        exec_line(sess, &format!("crdt.state {}", n), out);
+    }
+}
+
+pub fn generate(r: &mut Rng, opts: &BTreeMap<String, String>, sess: &mut Session, out: &mut Out) {
+    if let Some(which) = opts.get("scenario") { return generate_scenario(which, sess, out); }
+    match r.below(4) {
+        0 => return generate_focus(r, sess, out),
+        1 => return generate_seq(r, sess, out),
+        _ => {}
+    }
+    out.count("general_cases");
+    let enc = ["cp", "utf8", "utf16"][r.below(3) as usize];
+    let nrep = r.range(2, 3) as usize;
+    let mut actors: Vec<Vec<u8>> = (0..8).map(|i| vec![0x10 * (8 - i as u8) + r.below(8) as u8, r.next() as u8]).collect();
+    if r.chance(1, 2) { actors.reverse(); }
+    let mut names: Vec<String> = vec!["r0".into()];
+    exec_line(sess, &format!("crdt.new r0 {} {}", enc, hex::encode(&actors[0])), out);
+    let mut next_actor = 1;
+    let mut known_objs: Vec<(String, ObjType)> = vec![("_".into(), ObjType::Map)];
+    let mut all_changes: Vec<String> = vec![];
+    let steps = r.range(8, 30);
+    for _ in 0..steps {
+        let who = names[r.below(names.len() as u64) as usize].clone();
+        match r.below(10) {
+            0 if names.len() < nrep => {
+                let n = format!("r{}", names.len());
+                next_actor += 1;
+                exec_line(sess, &format!("crdt.fork {} {} {}", who, n, hex::encode(&actors[next_actor - 1])), out);
+                names.push(n);
+            }
+            1 | 2 if !all_changes.is_empty() => {
+                let k = r.range(1, 4.min(all_changes.len() as u64)) as usize;
+                let mut pick: Vec<String> = (0..k).map(|_| all_changes[r.below(all_changes.len() as u64) as usize].clone()).collect();
+                if r.chance(1, 3) { pick.reverse(); }
+                let via = if r.chance(1, 3) { "crdt.loadinc" } else { "crdt.apply" };
+                exec_line(sess, &format!("{} {} {}", via, who, pick.join(",")), out);
+                out.count("deliver_subset");
+            }
+            3 if !all_changes.is_empty() => {
+                let mut all = all_changes.clone();
+                shuffle(r, &mut all);
+                exec_line(sess, &format!("crdt.apply {} {}", who, all.join(",")), out);
+                out.count("deliver_all_shuffled");
+            }
+            _ => { local_tx(r, sess, out, &who, &mut known_objs, &mut all_changes); }
+        }
+        // a rolled-back / failed transaction leaves no pending ops; an open one answers `pending`
+        exec_line(sess, &format!("crdt.st.dump {}", who), out);
+        out.count("dumps");
+        if r.chance(1, 4) { exec_line(sess, &format!("crdt.st.state {}", who), out); }
+        if r.chance(1, 6) { exec_line(sess, &format!("crdt.saveload {} scratch {}", who, r.below(2)), out); exec_line(sess, "crdt.st.dump scratch", out); }
+    }
+    if !all_changes.is_empty() && r.chance(1, 2) {
+        let late_actor = hex::encode(r.bytes(3));
+        exec_line(sess, &format!("crdt.new late {} {}", enc, late_actor), out);
+        names.push("late".into());
+        out.count("late_joiner");
+        let mut all = all_changes.clone();
+        shuffle(r, &mut all);
+        for h in all {
+            let via = if r.chance(1, 2) { "crdt.loadinc" } else { "crdt.apply" };
+            exec_line(sess, &format!("{} late {}", via, h), out);
+            if r.chance(1, 2) { exec_line(sess, "crdt.st.dump late", out); out.count("dumps"); }
+        }
+    }
+    for n in names.clone() {
+        let mut all = all_changes.clone();
+        shuffle(r, &mut all);
+        if r.chance(1, 2) {
+            for h in all { exec_line(sess, &format!("crdt.apply {} {}", n, h), out); }
+        } else if !all.is_empty() {
+            exec_line(sess, &format!("crdt.apply {} {}", n, all.join(",")), out);
+        }
+    }
+    dump_all(r, sess, out, &names);
+    if !all_changes.is_empty() {
+        let who = names[r.below(names.len() as u64) as usize].clone();
+        exec_line(sess, &format!("crdt.saveload {} l {}", who, r.below(2)), out);
+        dump_all(r, sess, out, &["l".to_string()]);
+    }
+}
